@@ -258,29 +258,21 @@ def gen_contract_vcs(q, carve_outs=()):
     fparams = [a.arg for a in fa.posonlyargs + fa.args + fa.kwonlyargs]
     if any(isinstance(d, ast.Name) and d.id == "classmethod" for d in fnode.decorator_list):
         fparams = fparams[1:]
-    if [p for p, _ in cparams] != fparams:
-        raise Demoted(f"parameters of {q} are {fparams}, the contract was written for {[p for p, _ in cparams]}")
+    kwarg_name = fa.kwarg.arg if fa.kwarg is not None else None
+    cnames = [p for p, _ in cparams]
+    if cnames[: len(fparams)] != fparams or (len(cnames) > len(fparams) and kwarg_name is None):
+        raise Demoted(f"parameters of {q} are {fparams}, the contract was written for {cnames}")
     binding = {}
     for p, ann in cparams:
         if ann is None:
             raise Demoted(f"contract parameter {p} has no type")
         binding[p] = ctx.fresh("p_" + p, parse_ty(ann))
-    st0 = State(env=dict(binding))
-    # parameters are allocated objects; converters' record lists hold allocated records
-    from .symex import VRef, VList, VOpt
-    from .smt import ForAll, Implies, And, Le, Lt, Int, Select
-    for p_, v_ in binding.items():
-        vv = v_.val if isinstance(v_, VOpt) else v_
-        if isinstance(vv, VRef):
-            st0 = st0.assume(Implies(Not(v_.isnone), st0.is_alloc(ctx, vv)) if isinstance(v_, VOpt) else st0.is_alloc(ctx, vv))
-        elif isinstance(vv, VList) and vv.ety in REF_SORT:
-            i_ = ctx.bvar("i", "Int")
-            st0 = st0.assume(ForAll([i_], Implies(And(Le(Int(0), i_), Lt(i_, vv.n)), st0.is_alloc(ctx, vv.at(i_)))))
-    cb = ctx.bvar("c", "Conv")
-    ib = ctx.bvar("i", "Int")
-    recs_of = ctx.wrap(Select(st0.harr(ctx, "Converter", "records"), cb), ("list", "Record"))
-    st0 = st0.assume(ForAll([cb, ib], Implies(And(Select(st0.alloc_arr(ctx, "Converter"), cb), Le(Int(0), ib), Lt(ib, recs_of.n)),
-                                             Select(st0.alloc_arr(ctx, "Record"), recs_of.at(ib).t)), pats=[[recs_of.at(ib).t]]))
+    env0 = dict(binding)
+    if kwarg_name is not None:
+        # the contract names the keyword arguments that are forwarded (e.g. delimiter, strict)
+        from .symex import VKwargs
+        env0[kwarg_name] = VKwargs({p: binding[p] for p in cnames[len(fparams):]})
+    st0 = assume_params_allocated(ctx, State(env=env0), binding)
     eng.cur_class = cls
     eng.cur_func = q
     eng.cur_func_node = fnode
@@ -329,13 +321,31 @@ def gen_contract_vcs(q, carve_outs=()):
     return repo, ctx, eng, pre, canary_paths, n_paths
 
 
+def assume_params_allocated(ctx, st0, binding):
+    """Parameters are allocated objects; converters' record lists hold allocated records."""
+    from .symex import VRef, VList, VOpt
+    from .smt import ForAll, Implies, And, Le, Lt, Int, Select
+    for p_, v_ in binding.items():
+        vv = v_.val if isinstance(v_, VOpt) else v_
+        if isinstance(vv, VRef):
+            st0 = st0.assume(Implies(Not(v_.isnone), st0.is_alloc(ctx, vv)) if isinstance(v_, VOpt) else st0.is_alloc(ctx, vv))
+        elif isinstance(vv, VList) and vv.ety in REF_SORT:
+            i_ = ctx.bvar("i", "Int")
+            st0 = st0.assume(ForAll([i_], Implies(And(Le(Int(0), i_), Lt(i_, vv.n)), st0.is_alloc(ctx, vv.at(i_)))))
+    cb = ctx.bvar("c", "Conv")
+    ib = ctx.bvar("i", "Int")
+    recs_of = ctx.wrap(Select(st0.harr(ctx, "Converter", "records"), cb), ("list", "Record"))
+    return st0.assume(ForAll([cb, ib], Implies(And(Select(st0.alloc_arr(ctx, "Converter"), cb), Le(Int(0), ib), Lt(ib, recs_of.n)),
+                                               Select(st0.alloc_arr(ctx, "Record"), recs_of.at(ib).t)), pats=[[recs_of.at(ib).t]]))
+
+
 def gen_lemma_vcs(name):
     repo, ctx, eng = build_engine("api")
     lnode = loader.LEMMA_AST[name]
     binding = {}
     for a in lnode.args.args:
         binding[a.arg] = ctx.fresh("p_" + a.arg, parse_ty(ast.unparse(a.annotation)))
-    st0 = State(env=dict(binding))
+    st0 = assume_params_allocated(ctx, State(env=dict(binding)), binding)
     eng.cur_func = "lemma:" + name
     eng.cur_func_node = lnode
     eng.loop_counter = 0
@@ -502,7 +512,7 @@ def prove_item(kind, name, tier, seed, known=()):
     # (individual dead paths are legitimate, e.g. `if norm_identifier is None` in parse_curie)
     # solver instability is not a verdict: on UNCHANGED source, obligations left open by the parallel pass are retried
     # one at a time with twice the budget and every configuration started at once
-    if res.failed and not res.source_changed and kind in ("contract", "lemma") and len(res.failed) <= 6 \
+    if res.failed and not res.source_changed and kind in ("contract", "lemma") and len(res.failed) <= 6 and not os.environ.get("PYVC_NO_RETRY") \
             and not (kind == "contract" and spec.CONTRACTS.get(name) is not None and spec.CONTRACTS[name].opts.get("partial")):
         still = []
         for ob in res.failed:
